@@ -5,6 +5,7 @@
 -/
 import LispModel
 import LispModel.CallDriver
+import LispModel.ConcDriver
 open LispModel
 
 def splitBar (s : String) : List String := s.splitOn " | "
@@ -214,6 +215,7 @@ def handle (line : String) : String :=
     | some bs => renderP (Preamble.readWithPreamble { hasEnv := true } bs)
     | none => "bad-op"
   | ["call", payload, extra] => CallDriver.handleCall payload extra  -- C20, see LispModel/CallDriver.lean
+  | ["conc", payload, extra] => ConcDriver.handleConc payload extra  -- C09/C10, see LispModel/ConcDriver.lean
   | _ => "bad-op"
 
 /-! ### eval -/
